@@ -20,8 +20,12 @@ def pockets (args : List String) : String :=
       match gccWithoutPockets cfg Gen.tol cH cNP rows with
       | .ok out =>
         let np := out.filterMap fun r => r.get cNP
+        let hcol := out.filterMap fun r => r.get cH
         let (hot, cold) := loadProfiles Gen.tol np
-        s!"ok T={colList out cfg.tI} H={colList out cH} NP={colList out cNP} hot={",".intercalate (hot.map showRat)} cold={",".intercalate (cold.map showRat)}"
+        -- second layer: the code-shaped result against the tidy specification on the same rows
+        let spec := if np == npSpec Gen.tol hcol then "1" else "0"
+        let clean := if tolClean Gen.tol hcol then "1" else "0"
+        s!"ok T={colList out cfg.tI} H={colList out cH} NP={colList out cNP} hot={",".intercalate (hot.map showRat)} cold={",".intercalate (cold.map showRat)} spec={spec} clean={clean}"
       | .error e => s!"err {e.tag}"
     | _, _ => "bad-op"
   | _ => "bad-op"
